@@ -40,7 +40,7 @@ func draw(t *rapid.T) sim.ChainCase {
 	}
 	g := sim.GenChain(t, sim.GenOpts{
 		Net:       sim.NetOpts{MaxForkHeight: rapid.SampledFrom([]int{4, 10, 20}).Draw(t, "forkSpan"), V2Only: rapid.IntRange(0, 2).Draw(t, "v2only") == 0},
-		MinBlocks: 6, MaxBlocks: max, Reorgs: false, Profile: sim.Profile{Contracts: 1, MaxTxns: 6},
+		MinBlocks: 6, MaxBlocks: max, Reorgs: false, StrayProofs: true, Profile: sim.Profile{Contracts: 1, MaxTxns: 6},
 		BeforeApply: func(g *sim.Gen, honest types.Block, bs consensus.V1BlockSupplement) {
 			if rapid.IntRange(0, 3).Draw(g.T, "probeHere") == 0 {
 				g.NewAdv(honest).AuthProbes(1)
